@@ -20,7 +20,7 @@ from .core import Relation, err_kind
 
 PROP = "C02"
 CLAIMED = True
-COQ_MODULES = ["C02_Check", "C02_Tiling", "C02_Generations", "C02_Proofs", "C02_Cm"]
+COQ_MODULES = ["C02_Check", "C02_Tiling", "C02_Generations", "C02_Proofs", "C02_Cm", "C02_Coords", "C02_SeqCheck"]
 PROPERTY_MODULE = "C02_Property"
 ALLOWED_AXIOMS = []
 
@@ -85,6 +85,92 @@ def parse_bp(path, pops):
     return rows
 
 
+def run_once(d, cfg, model_name, prefix, children=False):
+    """simulate_gt + write_breakpoints on the map directory d with the model file d/model_name; the .bp file
+    parsed by the independent parser and re-read by haptools' Breakpoints and karyogram.  With children=True
+    also the markers handed to _simulate and the decoded draws of every child of every generation."""
+    from haptools.logging import getLogger
+    import haptools.sim_genotype as sg
+    from haptools.data import Breakpoints
+    from haptools import karyogram
+    import logging
+
+    log = getLogger("hv", "CRITICAL")
+    model = os.path.join(d, model_name)
+    out = os.path.join(d, prefix)
+    rec = c01.Recorder()
+    extra = {}
+    try:
+        try:
+            ns, pop_dict, gen = sg.simulate_gt(model, d, cfg["chroms"], cfg["region"], cfg["popsize"], log, cfg["seed"])
+            mark = len(rec.log)
+            sg.write_breakpoints(ns, pop_dict, gen, out, log)
+        except Exception as e:  # noqa
+            extra = {"failed": {"err": err_kind(e), "cls": type(e).__name__, "msg": str(e)[:200]}}
+    finally:
+        rec.close()
+    if children:
+        # the markers as _simulate received them in its first call, and every child's draws
+        try:
+            if rec.gens:
+                g0 = rec.gens[0]
+                extra["coords"] = [[[int(m.get_bp_pos()), float(m.get_map_pos())] for m in row if hasattr(m, "get_bp_pos")]
+                                   for row in g0["coords"]]
+            if "failed" not in extra:
+                ident = lambda x: x
+                extra["gens"] = [[[k["pop"], k["ia"], k["ib"], k["h0"], k["hd"], k["evs"]] for k in c01.children_of(g, ident)]
+                                 for g in rec.gens]
+        except AssertionError as e:
+            return {"unobserved": str(e)}
+    if "failed" in extra:
+        return extra
+    draws = [x for x in rec.log[mark:] if x[0] == "choice"]
+    if len(draws) != 1 or rec.log[mark:] != draws:
+        return {"unobserved": "write_breakpoints draw protocol changed"}
+    idx = [int(i) for i in draws[0][3]]
+    pops = ["Admixed"] + cfg["pops"]
+    rows = parse_bp(out + ".bp", pops)
+    final = [[[int(s.get_pop()), int(s.get_chrom()), int(s.get_end_coord()), float(s.get_end_pos())] for s in h] for h in gen]
+    # haptools' own readers
+    reader_ok = True
+    why = ""
+    try:
+        bps = Breakpoints(out + ".bp", log=log)
+        recs = []
+
+        class Cap(logging.Handler):
+            def emit(self, r):
+                recs.append(r.levelname)
+
+        cap = Cap()
+        log.addHandler(cap)
+        try:
+            bps.read()
+        finally:
+            log.removeHandler(cap)
+        if any(r in ("WARNING", "ERROR") for r in recs):
+            reader_ok, why = False, "reader logged " + ",".join(recs)
+        if list(bps.data.keys()) != [f"Sample_{i + 1}" for i in range(cfg["nsamples"])]:
+            reader_ok, why = False, "sample list differs"
+        else:
+            for i in range(cfg["nsamples"]):
+                for st in range(2):
+                    arr = bps.data[f"Sample_{i + 1}"][st]
+                    exp = rows[2 * i + st][2]
+                    got = [[pops.index(str(b["pop"])), 23 if str(b["chrom"]) == "X" else int(b["chrom"]), int(b["bp"]), float(b["cm"])] for b in arr]
+                    if got != exp:
+                        reader_ok, why = False, "blocks differ"
+        # karyogram finds every sample with as many blocks as the file has
+        for i in range(cfg["nsamples"]):
+            sb = karyogram.GetHaplotypeBlocks(out + ".bp", f"Sample_{i + 1}")
+            if len(sb) != 2 or any(len(sb[st]) != len(rows[2 * i + st][2]) for st in range(2)):
+                reader_ok, why = False, "karyogram blocks differ"
+    except Exception as e:  # noqa
+        reader_ok, why = False, f"{type(e).__name__}: {e}"
+    return dict(extra, rows=rows, final=final, idx=idx, reader_ok=reader_ok, why=why)
+
+
+
 class BpFile(Relation):
     name = "bpfile"
     coq_module = "C02_Check"
@@ -116,71 +202,10 @@ class BpFile(Relation):
         return out
 
     def run_impl(self, cfg):
-        from haptools.logging import getLogger
-        import haptools.sim_genotype as sg
-        from haptools.data import Breakpoints
-        from haptools import karyogram
-
         d = tempfile.mkdtemp(prefix="hv_c02_")
-        log = getLogger("hv", "CRITICAL")
         try:
-            model = c01.write_config(cfg, d)
-            rec = c01.Recorder()
-            try:
-                try:
-                    ns, pop_dict, gen = sg.simulate_gt(model, d, cfg["chroms"], cfg["region"], cfg["popsize"], log, cfg["seed"])
-                    mark = len(rec.log)
-                    sg.write_breakpoints(ns, pop_dict, gen, os.path.join(d, "out"), log)
-                except Exception as e:  # noqa
-                    return {"failed": {"err": err_kind(e), "cls": type(e).__name__, "msg": str(e)[:200]}}
-            finally:
-                rec.close()
-            draws = [x for x in rec.log[mark:] if x[0] == "choice"]
-            if len(draws) != 1 or rec.log[mark:] != draws:
-                return {"unobserved": "write_breakpoints draw protocol changed"}
-            idx = [int(i) for i in draws[0][3]]
-            pops = ["Admixed"] + cfg["pops"]
-            rows = parse_bp(os.path.join(d, "out.bp"), pops)
-            final = [[[int(s.get_pop()), int(s.get_chrom()), int(s.get_end_coord()), float(s.get_end_pos())] for s in h] for h in gen]
-            # haptools' own readers
-            reader_ok = True
-            why = ""
-            try:
-                bps = Breakpoints(os.path.join(d, "out.bp"), log=log)
-                recs = []
-
-                class H:
-                    def __init__(s):
-                        s.level = 0
-
-                import logging
-
-                class Cap(logging.Handler):
-                    def emit(self, r):
-                        recs.append(r.levelname)
-
-                log.addHandler(Cap())
-                bps.read()
-                if any(r in ("WARNING", "ERROR") for r in recs):
-                    reader_ok, why = False, "reader logged " + ",".join(recs)
-                if list(bps.data.keys()) != [f"Sample_{i + 1}" for i in range(cfg["nsamples"])]:
-                    reader_ok, why = False, "sample list differs"
-                else:
-                    for i in range(cfg["nsamples"]):
-                        for st in range(2):
-                            arr = bps.data[f"Sample_{i + 1}"][st]
-                            exp = rows[2 * i + st][2]
-                            got = [[pops.index(str(b["pop"])), 23 if str(b["chrom"]) == "X" else int(b["chrom"]), int(b["bp"]), float(b["cm"])] for b in arr]
-                            if got != exp:
-                                reader_ok, why = False, "blocks differ"
-                # karyogram finds every sample with as many blocks as the file has
-                for i in range(cfg["nsamples"]):
-                    sb = karyogram.GetHaplotypeBlocks(os.path.join(d, "out.bp"), f"Sample_{i + 1}")
-                    if len(sb) != 2 or any(len(sb[st]) != len(rows[2 * i + st][2]) for st in range(2)):
-                        reader_ok, why = False, "karyogram blocks differ"
-            except Exception as e:  # noqa
-                reader_ok, why = False, f"{type(e).__name__}: {e}"
-            return {"rows": rows, "final": final, "idx": idx, "reader_ok": reader_ok, "why": why}
+            c01.write_config(cfg, d)
+            return run_once(d, cfg, "model.dat", "out")
         finally:
             shutil.rmtree(d, ignore_errors=True)
 
@@ -251,7 +276,281 @@ class Gen(c01.Child):
         return "gen child does not tile the chromosomes"
 
 
-RELATIONS = [BpFile(), Gen()]
+
+# ---------------------------------------------------------------------------
+# histories of runs in one interpreter
+
+
+def alone_main():
+    """Entry point of the fresh interpreter that makes one run alone (see Seq.run_impl)."""
+    import json
+    import sys
+
+    req = json.load(sys.stdin)
+    obs = run_once(req["dir"], req["run"], req["model"], req["prefix"])
+    sys.stdout.write("\n@@HV@@" + json.dumps(obs))
+
+
+def run_alone(d, run, model_name, prefix):
+    import json
+    import subprocess
+    import sys
+
+    req = json.dumps({"dir": d, "run": run, "model": model_name, "prefix": prefix})
+    try:
+        p = subprocess.run([sys.executable, "-c", "from harness import c02; c02.alone_main()"], input=req,
+                           capture_output=True, text=True, timeout=100,
+                           cwd=os.path.dirname(os.path.dirname(os.path.abspath(__file__))))
+        return json.loads(p.stdout.rsplit("@@HV@@", 1)[1])
+    except Exception as e:  # noqa
+        return {"unobserved": f"fresh interpreter: {type(e).__name__}: {e}"[:200]}
+
+
+def write_model(run, path):
+    with open(path, "w") as f:
+        f.write(f"{run['nsamples']}\tAdmixed\t" + "\t".join(run["pops"]) + "\n")
+        for ln in run["model"]:
+            f.write("\t".join(str(x) for x in ln) + "\n")
+
+
+ALLCH = [str(c) for c in range(1, 23)] + ["X"]
+
+
+def chnum(c):
+    return 23 if c == "X" else int(c)
+
+
+def make_seq(rng):
+    """A history: one map directory and 2-4 runs on it (regions inside the chromosome then wider then the whole
+    chromosome, overlapping chromosome subsets, repeated runs), each with its own model, population size and seed."""
+    ndir = int(rng.integers(1, 6))
+    chroms = [ALLCH[i] for i in sorted(rng.choice(23, size=ndir, replace=False).tolist())]
+    maps = {}
+    for c in chroms:
+        nm = int(rng.integers(4, 11))
+        cm, bp, rows = 0.0, int(rng.integers(1, 1000)), []
+        for _ in range(nm):
+            rows.append([c, round(cm, 6), bp])
+            cm += float(rng.choice([0, 0.5, 20, 80, 300], p=[0.1, 0.1, 0.25, 0.3, 0.25]))
+            bp += int(rng.integers(1, 100000))
+        maps[c] = rows
+
+    def region_of(c, i, j):
+        bps = [r[2] for r in maps[c]]
+        a = bps[i] - int(rng.integers(0, 3))
+        b = bps[j] + int(rng.integers(-1, 2)) if j < len(bps) else bps[-1] + int(rng.integers(1, 1000))
+        return {"chr": c, "start": max(0, min(a, b)), "end": max(a, b)}
+
+    kind = str(rng.choice(["region-widening", "region-moving", "subsets", "repeat"], p=[0.4, 0.15, 0.3, 0.15]))
+    if kind == "subsets" and ndir == 1:
+        kind = "region-widening"
+    plan = []      # (chroms, region)
+    if kind == "region-widening":
+        c = chroms[int(rng.integers(0, ndir))]
+        nm = len(maps[c])
+        i = int(rng.integers(1, nm - 2))
+        j = int(rng.integers(i, nm - 2))          # the closing marker lies inside the chromosome
+        plan.append(([c], region_of(c, i, j)))
+        if rng.random() < 0.7:
+            i2, j2 = int(rng.integers(0, i + 1)), int(rng.integers(j + 1, nm + 1))
+            plan.append(([c], region_of(c, i2, j2)))
+        plan.append(([c], None))
+        if ndir > 1 and rng.random() < 0.5:
+            plan.append((list(chroms), None))
+    elif kind == "region-moving":
+        c = chroms[int(rng.integers(0, ndir))]
+        nm = len(maps[c])
+        for _ in range(int(rng.integers(2, 5))):
+            if rng.random() < 0.25:
+                plan.append(([c], None))
+            else:
+                i = int(rng.integers(0, nm))
+                plan.append(([c], region_of(c, i, int(rng.integers(i, nm + 1)))))
+    elif kind == "subsets":
+        for _ in range(int(rng.integers(2, 5))):
+            k = int(rng.integers(1, ndir + 1))
+            sub = [chroms[i] for i in sorted(rng.choice(ndir, size=k, replace=False).tolist())]
+            if len(sub) == 1 and rng.random() < 0.3:
+                nm = len(maps[sub[0]])
+                i = int(rng.integers(0, nm))
+                plan.append((sub, region_of(sub[0], i, int(rng.integers(i, nm + 1)))))
+            else:
+                plan.append((sub, None))
+    else:
+        k = int(rng.integers(1, ndir + 1))
+        sub = [chroms[i] for i in sorted(rng.choice(ndir, size=k, replace=False).tolist())]
+        reg = None
+        if len(sub) == 1 and rng.random() < 0.5:
+            nm = len(maps[sub[0]])
+            i = int(rng.integers(0, nm))
+            reg = region_of(sub[0], i, int(rng.integers(i, nm + 1)))
+        plan = [(sub, reg)] * int(rng.integers(2, 4))
+    runs = []
+    for sub, reg in plan:
+        m = c01.make_config(rng)       # only its model, sample count, population size
+        ns = min(int(m["nsamples"]), 2)
+        runs.append({"chroms": list(sub), "region": reg, "pops": m["pops"], "model": m["model"], "nsamples": ns,
+                     "popsize": int(max(2 * ns, min(int(m["popsize"]), 10))), "seed": int(rng.integers(1, 2**31 - 1))})
+    if kind == "repeat" and rng.random() < 0.5:
+        runs[-1] = dict(runs[0])        # exactly the same run again
+    return {"maps": maps, "runs": runs, "kind": kind}
+
+
+class Seq(Relation):
+    """Histories of 2-4 runs in one interpreter on one map directory: every run satisfies the property and is
+    the run it would be alone in a fresh interpreter; the model of a run sees that run's inputs only."""
+
+    name = "seq"
+    coq_module = "C02_SeqCheck"
+    coq_check = "check_seq"
+    coq_case_type = "scase"
+    coq_model = "model_seq"
+    coq_imports = ["Tracts", "C01_Model", "C02_Model", "C02_Generations", "C02_Coords"]
+    budget = {"quick": 24, "thorough": 500}
+    max_cases_per_shard = 8
+    timeout_per_case = 400
+    anchors = BpFile.anchors
+
+    def preamble(self):
+        return "From Coq Require Import QArith.\nOpen Scope Z_scope."
+
+    def generate(self, rng, n, tier):
+        return [make_seq(rng) for _ in range(n)]
+
+    def run_impl(self, inp):
+        d = tempfile.mkdtemp(prefix="hv_c02s_")
+        try:
+            for c, rows in inp["maps"].items():
+                with open(os.path.join(d, f"g.chr{c}.map"), "w") as f:
+                    for r in rows:
+                        f.write(f"{r[0]}\t.\t{r[1]:.6f}\t{r[2]}\n")
+            for k, run in enumerate(inp["runs"]):
+                write_model(run, os.path.join(d, f"model{k}.dat"))
+            # the history, in this interpreter
+            seq = [run_once(d, run, f"model{k}.dat", f"out{k}", children=True) for k, run in enumerate(inp["runs"])]
+            # every run alone, each in a fresh interpreter, on the same directory
+            alone = [run_alone(d, run, f"model{k}.dat", f"alone{k}") for k, run in enumerate(inp["runs"])]
+            for o in alone:
+                o.pop("final", None)
+            return {"seq": seq, "alone": alone}
+        finally:
+            shutil.rmtree(d, ignore_errors=True)
+
+    def encode(self, inp, obs):
+        if "seq" not in obs:
+            obs = {"seq": [{"unobserved": "crash"} for _ in inp["runs"]], "alone": [{"unobserved": "crash"} for _ in inp["runs"]]}
+        vals = {float(f"{r[1]:.6f}") for rows in inp["maps"].values() for r in rows}
+        for o in obs["seq"] + obs["alone"]:
+            vals |= {s[3] for r in o.get("rows", []) for s in r[2]}
+            vals |= {m[1] for row in o.get("coords", []) for m in row}
+            vals |= {e[2] for g in o.get("gens", []) for k in g for e in k[5]}
+        rank = {v: i for i, v in enumerate(sorted(vals))}
+        mk = lambda m: f"({L.z(m[0])}, {L.z(rank[m[1]])})"
+        maps = sorted(((chnum(c), [[r[2], float(f"{r[1]:.6f}")] for r in rows]) for c, rows in inp["maps"].items()))
+        mterm = L.lst(maps, lambda f: f"({L.z(f[0])}, {L.lst(f[1], mk)})")
+        seg = lambda s: c01.seg_term([s[0], s[1], s[2], rank[s[3]]])
+        row = lambda r: f"({L.z(r[0])}, {L.z(r[1])}, {L.lst(r[2], seg)})"
+
+        def rows_term(o):
+            if "rows" in o:
+                return f"(Ok {L.lst(o['rows'], row)})"
+            e = o["failed"]["err"] if "failed" in o else 97
+            return f"(Err {L.z(e)})"
+
+        ev = lambda e: f"(mkev {L.z(e[0])} {L.z(e[1])} {L.z(rank[e[2]])})"
+        kid = lambda k: f"(mkcd {L.z(k[0])} {L.z(k[1])} {L.z(k[2])} {L.b(k[3])} {L.bl(k[4])} {L.lst(k[5], ev)})"
+        terms = []
+        for run, o, a in zip(inp["runs"], obs["seq"], obs["alone"]):
+            reg = "None" if not run["region"] else f"(Some ({L.z(run['region']['start'])}, {L.z(run['region']['end'])}))"
+            rin = (f"(mkrun {L.zl([chnum(c) for c in run['chroms']])} {reg} "
+                   f"{L.lst(o.get('gens', []), lambda g: L.lst(g, kid))} {L.zl(o.get('idx', []))})")
+            fr = L.lst(run["model"], lambda ln: L.lst(ln[1:], lambda x: L.q(Fraction(str(x)))))
+            co = "None" if "coords" not in o else f"(Some {L.lst(o['coords'], lambda r: L.lst(r, mk))})"
+            terms.append(f"(mksr {rin} {L.z(run['nsamples'])} {fr} {co} {rows_term(o)} "
+                         f"{L.b(o.get('reader_ok', True))} {rows_term(a)})")
+        return f"(mks {mterm} [{'; '.join(terms)}])"
+
+    @staticmethod
+    def _overlap(inp):
+        rs = inp["runs"]
+        return any(set(rs[i]["chroms"]) & set(rs[j]["chroms"]) and
+                   (rs[i]["chroms"], rs[i]["region"]) != (rs[j]["chroms"], rs[j]["region"])
+                   for j in range(len(rs)) for i in range(j))
+
+    def nontrivial(self, inp, obs):
+        if "seq" not in obs or not self._overlap(inp):
+            return False
+        for o in obs["seq"]:
+            for r in o.get("rows", []):
+                chs = [s[1] for s in r[2]]
+                if len(chs) != len(set(chs)):
+                    return True
+        return False
+
+    def classes(self, inp, obs):
+        out = [inp["kind"], f"runs={len(inp['runs'])}", f"mapfiles={len(inp['maps'])}"]
+        rs = inp["runs"]
+        for j in range(1, len(rs)):
+            a, b = rs[j - 1], rs[j]
+            if a["region"] and a["chroms"] == b["chroms"]:
+                last = inp["maps"][a["chroms"][0]][-1][2]
+                if a["region"]["end"] < last and (b["region"] is None or b["region"]["end"] > a["region"]["end"]):
+                    out.append("region-ending-inside-then-wider")
+            if not a["region"] and not b["region"] and set(a["chroms"]) & set(b["chroms"]) and a["chroms"] != b["chroms"]:
+                out.append("overlapping-chromosome-subsets")
+            if a == b:
+                out.append("same-run-twice")
+        if "seq" in obs:
+            if any("failed" in o for o in obs["seq"]):
+                out.append("failed")
+            if any("unobserved" in o for o in obs["seq"] + obs["alone"]):
+                out.append("unobserved")
+            if any("rows" in o and "rows" in a and o["rows"] != a["rows"] for o, a in zip(obs["seq"], obs["alone"])):
+                out.append("differs-from-run-alone")
+        return sorted(set(out))
+
+    def shrink(self, inp):
+        rs = inp["runs"]
+        if len(rs) > 1:
+            for j in range(len(rs)):
+                yield dict(inp, runs=rs[:j] + rs[j + 1:])
+        used = {c for r in rs for c in r["chroms"]}
+        if set(inp["maps"]) - used:
+            yield dict(inp, maps={c: v for c, v in inp["maps"].items() if c in used})
+        for j, r in enumerate(rs):
+            if len(r["model"]) > 1:
+                yield dict(inp, runs=rs[:j] + [dict(r, model=r["model"][:-1])] + rs[j + 1:])
+            if r["popsize"] > 2 * r["nsamples"]:
+                yield dict(inp, runs=rs[:j] + [dict(r, popsize=2 * r["nsamples"])] + rs[j + 1:])
+            if r["nsamples"] > 1:
+                yield dict(inp, runs=rs[:j] + [dict(r, nsamples=1)] + rs[j + 1:])
+            if len(r["chroms"]) > 1:
+                for i in range(len(r["chroms"])):
+                    yield dict(inp, runs=rs[:j] + [dict(r, chroms=r["chroms"][:i] + r["chroms"][i + 1:])] + rs[j + 1:])
+        for c, rows in inp["maps"].items():
+            if len(rows) > 2:
+                for j in range(len(rows)):
+                    yield dict(inp, maps=dict(inp["maps"], **{c: rows[:j] + rows[j + 1:]}))
+
+    def mutate(self, inp, rng):
+        for _ in range(6):
+            yield dict(inp, runs=[dict(r, seed=int(rng.integers(1, 2**31 - 1))) for r in inp["runs"]])
+
+    def signature(self, inp, obs):
+        if "seq" not in obs:
+            return "seq history not observed"
+        for k, (o, a) in enumerate(zip(obs["seq"], obs["alone"])):
+            first = "first run" if k == 0 else "a run after another run in the same interpreter"
+            if "failed" in o:
+                return f"seq {first} raised {o['failed'].get('cls')}" + ("" if "failed" in a else " (alone it completes)")
+            if "rows" in o and "rows" in a and o["rows"] != a["rows"]:
+                return f"seq {first} writes other breakpoints than the same run alone in a fresh interpreter"
+            if "rows" in o and not o["reader_ok"]:
+                return f"seq {first}: haptools reader/karyogram does not accept the file"
+        return "seq tiling/labels/framing of a run of the history, or its markers differ from the map files'"
+
+
+RELATIONS = [BpFile(), Gen(), Seq()]
 
 LEVEL_TEXT = (
     "Coq theorems, for all strictly increasing chromosome lists, all ordered event lists, all draw streams and any number "
